@@ -77,9 +77,22 @@ structure Cache where
   maxReaders : Nat := 0
   upgrades : Nat := 0
   downgrades : Nat := 0
+  /-- `FFT_LEN` each thread saw when its test `len > FFT_LEN` sent it on the upgrade path -/
+  seen : Array Int := #[]
+  /-- downgrades (re-test failed) although `FFT_LEN` had not grown since the thread's first test: impossible for the pinned
+      code (`len > f0` then `¬ len > f1` gives `f0 < f1`); a driver-side oracle, not used by the theorems -/
+  spurious : Nat := 0
+  /-- how often a thread entered the initialiser (`i0_cold`) while another was inside it: the step that `StepS` /
+      `ReachableS` exclude, i.e. the run has left the hypothesis of the `Good` theorems (finding F9) -/
+  raced : Nat := 0
+  /-- number of the first transition of this cache fired at or after the first such entry (0 = none) -/
+  racedAt : Nat := 0
+  /-- set of labels fired (bit = constructor index): which transitions of the model the real traces exercised -/
+  cov : Nat := 0
 
 def Cache.new (n : Nat) (warmStart : Bool) : Cache :=
-  { st := (if warmStart then warm n else cold n).compact, pcs := Array.replicate n Pc.idle, lens := Array.replicate n 0 }
+  { st := (if warmStart then warm n else cold n).compact, pcs := Array.replicate n Pc.idle, lens := Array.replicate n 0,
+    seen := Array.replicate n 0 }
 
 instance : Inhabited Cache := ⟨Cache.new 0 true⟩
 
@@ -90,7 +103,7 @@ def lockOf : String → Option Lock
 def showLabel (l : Label) : String := (reprStr l).replace "Soxr.Conc.Label." ""
 def showPc (p : Pc) : String := (reprStr p).replace "Soxr.Conc.Pc." ""
 
-def fireOne (c : Cache) (tid : Nat) (l : Label) : Except String Cache :=
+def fireOne (c : Cache) (tid : Nat) (l : Label) (evNo : Nat := 0) : Except String Cache :=
   match fire l c.st with
   | none =>
     let s := c.st
@@ -106,10 +119,15 @@ def fireOne (c : Cache) (tid : Nat) (l : Label) : Except String Cache :=
     let mr : Nat := max c.maxReaders t.reading
     let newPcs := c.pcs.set! tid l.dst
     let nf := c.fired + 1
-    let c : Cache := { c with st := t, pcs := newPcs, fired := nf, overlap := ov, twoWriters := tw, shrunk := sh, maxReaders := mr }
+    let isRace : Bool := (l == .i0_cold) && decide (0 < c.st.inInit)
+    let c : Cache := { c with st := t, pcs := newPcs, fired := nf, overlap := ov, twoWriters := tw, shrunk := sh, maxReaders := mr,
+                              cov := c.cov ||| (1 <<< l.ctorIdx),
+                              raced := c.raced + (if isRace then 1 else 0),
+                              racedAt := if isRace && c.racedAt == 0 then evNo else c.racedAt }
     let c := match l with
-      | .c0_grow => { c with upgrades := c.upgrades + 1 }
-      | .c1_fail => { c with downgrades := c.downgrades + 1 }
+      | .c0_grow => { c with upgrades := c.upgrades + 1, seen := c.seen.set! tid t.flen }
+      | .c1_fail => { c with downgrades := c.downgrades + 1,
+                             spurious := c.spurious + (if c.seen[tid]! < t.flen then 0 else 1) }
       | _ => c
     .ok c
 
@@ -144,7 +162,7 @@ def checkCounts (c : Cache) : Except String Unit :=
   | some p => .error s!"count projection broken at {showPc p}"
   | none => .ok ()
 
-def stepEvent (c : Cache) (tid : Nat) (ev : Ev) (arg : Int) (o : Obs) : Except String Cache := do
+def stepEvent (c : Cache) (tid : Nat) (ev : Ev) (arg : Int) (o : Obs) (evNo : Nat := 0) : Except String Cache := do
   if tid ≥ c.pcs.size then throw s!"thread id {tid} out of range"
   let pc := c.pcs[tid]!
   let isRebuildBegin := match ev with | .yld "rebuild-begin" => true | _ => false
@@ -156,10 +174,10 @@ def stepEvent (c : Cache) (tid : Nat) (ev : Ev) (arg : Int) (o : Obs) : Except S
   if isRebuildBegin then c := { c with lens := c.lens.set! tid arg }
   let mut cur := pc
   for l in path do
-    c ← fireOne c tid l
+    c ← fireOne c tid l evNo
     cur := l.dst
   match visibleAt labels cur ev with
-  | some (some l) => c ← fireOne c tid l
+  | some (some l) => c ← fireOne c tid l evNo
   | some none => pure ()
   | none => throw "internal: path does not end at a visible point"
   checkObs c o
@@ -173,23 +191,30 @@ structure VrD where
   fills : Nat := 0
   earlyUse : Bool := false
   fired : Nat := 0
+  /-- the test `fade_coefs[0]==0` executed while another thread was inside the initialiser (excluded by `Vr.StepS`) -/
+  raced : Nat := 0
+  racedAt : Nat := 0
 
 def VrD.new (n : Nat) : VrD := { st := Vr.cold n, pcs := Array.replicate n 0 }
 
-def vrFire (d : VrD) (tid : Nat) (l : Vr.Label) (dst : Nat) : Except String VrD :=
+def vrFire (d : VrD) (tid : Nat) (l : Vr.Label) (dst : Nat) (evNo : Nat := 0) : Except String VrD :=
   match Vr.fire l d.st with
   | none => .error s!"vr: transition {reprStr l} of thread {tid} is not enabled in the model: fade0={d.st.fade0} v1={d.st.v1} v2={d.st.v2} vu={d.st.vu}"
-  | some t => .ok { d with st := t, pcs := d.pcs.set! tid dst, fired := d.fired + 1, fills := t.nFill,
-                           earlyUse := d.earlyUse || (0 < t.vu && 0 < t.v2) }
+  | some t =>
+    let isRace : Bool := (l == .check_cold || l == .check_warm) && decide (0 < d.st.v1 + d.st.v2)
+    .ok { d with st := t, pcs := d.pcs.set! tid dst, fired := d.fired + 1, fills := t.nFill,
+                 earlyUse := d.earlyUse || (0 < t.vu && 0 < t.v2),
+                 raced := d.raced + (if isRace then 1 else 0),
+                 racedAt := if isRace && d.racedAt == 0 then evNo else d.racedAt }
 
-def vrEvent (d : VrD) (tid : Nat) (kind : String) : Except String VrD := do
+def vrEvent (d : VrD) (tid : Nat) (kind : String) (evNo : Nat := 0) : Except String VrD := do
   if tid ≥ d.pcs.size then throw s!"thread id {tid} out of range"
   let pc := d.pcs[tid]!
   match kind, pc with
   | "begin", 0 => vrFire d tid .enter 1
-  | "passed", 1 => vrFire d tid .check_cold 2
+  | "passed", 1 => vrFire d tid .check_cold 2 evNo
   | "filled", 2 => vrFire d tid .fill 3
-  | "end", 1 => vrFire d tid .check_warm 4
+  | "end", 1 => vrFire d tid .check_warm 4 evNo
   | "end", 2 => do let d ← vrFire d tid .fill 3; vrFire d tid .finish 4
   | "end", 3 => vrFire d tid .finish 4
   | "leave", 4 => vrFire d tid .leave 0
@@ -209,8 +234,8 @@ def summary (r : Run) : String :=
     let k := r.caches[i]!
     s!"c{i}:fired={k.fired},nInit={k.st.nInit},nReset={k.st.nReset},nStore={k.st.nStore},flen={k.st.flen},overlap={b2n k.overlap}," ++
     s!"twoWriters={b2n k.twoWriters},shrunk={b2n k.shrunk},maxReaders={k.maxReaders},upgrades={k.upgrades},downgrades={k.downgrades}," ++
-    s!"idle={k.st.cnt .idle}"
-  s!"events={r.events} {c 0} {c 1} vr:fired={r.vr.fired},fills={r.vr.fills},earlyUse={b2n r.vr.earlyUse}"
+    s!"spurious={k.spurious},raced={k.raced},racedAt={k.racedAt},cov={k.cov},idle={k.st.cnt .idle}"
+  s!"events={r.events} {c 0} {c 1} vr:fired={r.vr.fired},fills={r.vr.fills},earlyUse={b2n r.vr.earlyUse},raced={r.vr.raced},racedAt={r.vr.racedAt}"
 
 def kv (toks : List String) (k : String) : Option String :=
   toks.findSome? fun t => match t.splitOn "=" with
@@ -252,7 +277,7 @@ def handleLine (cur : Option Run) (line : String) : Option Run × Option String 
       | some t, some ci, some ev, some a, [some flen, some rc, some wc, some tab, some m1, some m2, some m3, some w, some rr] =>
         if ci ≥ 2 then fail "bad cache index" else
         let o : Obs := { flen, rc, wc, tab, m1 := m1.toNat, m2 := m2.toNat, m3 := m3.toNat, w := w.toNat, r := rr.toNat }
-        match stepEvent r.caches[ci]! t ev a o with
+        match stepEvent r.caches[ci]! t ev a o r.events with
         | .ok c => (some { r with caches := r.caches.set! ci c }, none)
         | .error m => fail m
       | _, _, _, _, _ => fail "unparsable event line"
@@ -265,7 +290,7 @@ def handleLine (cur : Option Run) (line : String) : Option Run × Option String 
       match tid.toNat? with
       | none => (some { r with failed := some s!"event={r.events} unparsable V line" }, none)
       | some t =>
-        match vrEvent r.vr t kind with
+        match vrEvent r.vr t kind r.events with
         | .ok d => (some { r with vr := d }, none)
         | .error m => (some { r with failed := some s!"event={r.events} [{line.trimAscii.toString}] {m}" }, none)
   | "CLIPS" :: t0 :: cs =>
